@@ -103,6 +103,7 @@ def run(check: Check):
   check.floor('R-KEY', 'key uses in step functions', n_key, 20)
   _fed_prox(check)
   _mime_family(check, algs)
+  _mime_control_variate(check)
   _hyp_cluster(check, algs)
   _apfl(check, facts)
 
@@ -149,6 +150,15 @@ def _pair_sum(check: Check, repo, owner: FuncInfo, inv: ast.Call, triples) -> bo
     return False
   S, W = inv.args[0], inv.args[1]
   ds, dw = ff.defs_for(S), ff.defs_for(W)
+  from_sum = lambda d: d.kind == 'assign' and isinstance(d.value, ast.Call) and wmean.repo_fn(ff, d.value) in wmean.SUM and d.index is not None
+  s_sum, w_sum = [d for d in ds if from_sum(d)], [d for d in dw if from_sum(d)]
+  mismatch = (bool(s_sum) != bool(w_sum)) or (s_sum and w_sum and s_sum[0].value is not w_sum[0].value)
+  if (s_sum or w_sum) and (len(ds) != 1 or len(dw) != 1 or mismatch):
+    extra = [txt(d.value)[:50] for d in list(ds) + list(dw) if not from_sum(d) and d.value is not None]
+    check.ob('R-WMEAN.pair-sum', owner, txt(inv)[:90], False,
+             f'the gradient sum or the count is modified between the sum over clients and the division ({extra}): whatever is added '
+             f'to the count-weighted sum is divided by the number of examples', node=inv)
+    return True
   if len(ds) != 1 or len(dw) != 1:
     return False
   d1, d2 = next(iter(ds)), next(iter(dw))
@@ -362,6 +372,34 @@ def _mime_family(check: Check, algs):
       check.ob('R-MIME.opt-state', su, 'base_optimizer.apply', False, 'server never advances the optimizer state')
 
 
+def _mime_control_variate(check: Check):
+  """Mime: the control-variate gradient and the local gradient see the same batch and the same key."""
+  repo = check.repo
+  step = repo.func('fedjax.algorithms.mime', 'create_train_for_each_client').nested('client_step')
+  ff = FuncFlow.of(repo, step)
+  rec = sk.Record(ff, step.positional_params[0])
+  gcalls = []
+  seen = set()
+  for _, c in ff.calls():
+    if id(c) in seen:
+      continue
+    seen.add(id(c))
+    if isinstance(c.func, ast.Name) and not ff.is_local(c.func) and len(c.args) == 3 and rec.field_of(c.args[0]) is not None:
+      r = ff.resolve(c.func)
+      if r.kind in ('param', 'local', 'unknown', 'wrapped'):
+        gcalls.append(c)
+  if len(gcalls) != 2:
+    check.inconclusive('R-MIME.same-key', step, 'gradient calls', f'{len(gcalls)} gradient calls found, expected 2')
+    return
+  a, b = gcalls
+  points = {rec.field_of(a.args[0]), rec.field_of(b.args[0])}
+  same_batch = same_value(ff, a.args[1], b.args[1])
+  same_key = same_value(ff, a.args[2], b.args[2])
+  check.ob('R-MIME.same-key', step, 'grad_fn(init_params, batch, k) / grad_fn(params, batch, k)', same_batch and same_key and len(points) == 2,
+           f'the control variate only cancels the stochastic part if both gradients use the same batch (ok={same_batch}) and the '
+           f'same random key (ok={same_key}) at the two points {sorted(map(str, points))}', node=b)
+
+
 def _hyp_cluster(check: Check, algs):
   repo = check.repo
   alg = next((a for a in algs if a.builder.module.name.endswith('hyp_cluster')), None)
@@ -408,6 +446,29 @@ def _hyp_cluster(check: Check, algs):
                 a, b = st.value.elts
                 if isinstance(a, ast.Name) and isinstance(b, ast.Name) and (a.id, b.id) == (o, p):
                   ok_none = True
+    # both results (on either arm) end up in the lists that form the new ServerState, in field order
+    ok_lists = False
+    why_l = 'new state constructor not found'
+    st_assign = ff.module.enclosing_stmt(oc.call)
+    if isinstance(st_assign, ast.Assign) and isinstance(st_assign.targets[0], ast.Tuple) and len(st_assign.targets[0].elts) == 2:
+      n_o, n_p = (t.id if isinstance(t, ast.Name) else None for t in st_assign.targets[0].elts)
+      lists = {}
+      for _, c in ff.calls():
+        if isinstance(c.func, ast.Attribute) and c.func.attr == 'append' and isinstance(c.func.value, ast.Name) and c.args and isinstance(c.args[0], ast.Name):
+          if wmean._loop_of(ff, c) is loop:
+            lists[c.args[0].id] = c.func.value.id
+      for _, rv in ff.returns():
+        for x in ([rv.elts[0]] if isinstance(rv, ast.Tuple) and rv.elts else [rv]):
+          if isinstance(x, ast.Call) and ff.callee(x).kind == 'class':
+            fields = [f for f, _, _ in ff.callee(x).cls.fields]
+            b = call_args(x, fields)
+            got = {f: (b[f].id if isinstance(b.get(f), ast.Name) else None) for f in fields}
+            ok_lists = got.get('cluster_params') == lists.get(n_p) and got.get('opt_states') == lists.get(n_o) and None not in (
+                lists.get(n_p), lists.get(n_o))
+            why_l = f'appended: {lists}; ServerState receives {got}'
+    check.ob('R-HYP.carry', fi, 'cluster_params.append(next_params); opt_states.append(next_opt_state)', ok_lists,
+             f'the updated params and the updated optimizer state of every cluster are what the new ServerState holds ({why_l})',
+             node=oc.call)
     check.ob('R-HYP.roles', fi, txt(oc.call)[:80], ok_zip,
              f'cluster i is updated from delta i, opt_state i, params i of the same zip position ({why})', node=oc.call)
     check.ob('R-HYP.empty', fi, 'delta is None arm', ok_none,
